@@ -156,9 +156,9 @@ class Iso:
         self.nodes = 0
         self.refs = refs_of_graph(g, Expr)
 
-    def err(self, kind, **kw):
+    def err(self, what, **kw):
         if len(self.errors) < 5:
-            self.errors.append((kind, kw))
+            self.errors.append((what, kw))
 
     def same_type(self, a, b):
         try:
